@@ -2,7 +2,7 @@
 # Offline setup: checks the tools the machinery needs, byte-compiles the Python, self-tests the translator on /repo.
 set -e
 cd "$(dirname "$0")"
-for t in cbmc goto-cc goto-instrument clang++ cvc5 python3 cmake ninja g++; do command -v $t >/dev/null || { echo "missing tool: $t"; exit 1; }; done
+for t in cbmc goto-cc goto-instrument clang++ c++filt python3 cmake ninja g++; do command -v $t >/dev/null || { echo "missing tool: $t"; exit 1; }; done
 cbmc --version | grep -q '^6\.' || { echo "unexpected cbmc version"; exit 1; }
 python3 -m py_compile lib/cxx2c.py lib/pipeline.py lib/fpx.py lib/native.py lib/oracle.py check
 chmod +x check
